@@ -33,6 +33,23 @@ ASSUMPTIONS = [
 @st.composite
 def _case(draw, tier):
     spec = draw(sysgen.system_spec(max_eps=3, min_steps=3, max_steps=10))
+    # trainable (zero-order-hold) delays on some non-blocking LATEST connections: the threaded runtime simulates the
+    # constant delay, the compiled replay has to pick the same messages out of the extended window (apply_delay)
+    for c in spec["conns"]:
+        if not c["blocking"] and c["jitter"] == "LATEST" and draw(st.integers(0, 3)) == 0:
+            period = 1.0 / next(n["rate"] for n in spec["nodes"] if n["name"] == c["src"])
+            if spec["cls"] == "tie":
+                continue  # exact float32 ties of recomputed arrivals are C10/C11 territory; a fixed tie scenario is in regressions()
+            lo = round(draw(st.integers(0, 100)) / 100.0 * period + 0.00013, 5)  # off the 10 ms / period grid: no exact ties
+            hi = round(lo + draw(st.integers(10, 200)) / 100.0 * period, 5)
+            d = min(max(round(lo + draw(st.integers(0, 100)) / 100.0 * (hi - lo), 6), lo), hi)
+            c["delay"] = {"k": "train", "min": lo, "max": hi, "d": d, "interp": "zoh"}
+            # With the default expected delay (= d) the receiver's phase is the arrival time of the first message: an exact
+            # tie, where the compiled float32 arrival may round above the step start (known finding, kept as a fixed
+            # regression scenario). Generated trainable connections get an explicit expected delay off that tie, so the
+            # search goes on behind the finding (excluded by construction; ties of recomputed arrivals are C10/C11's domain).
+            c["exp_delay"] = round(d + 0.00037, 6)
+    sysgen.make_supported(spec)
     all_combos = [(m, p) for m in compiledrun.MODES for p in (True, False)]
     if tier == "thorough":
         combos = all_combos
@@ -48,23 +65,36 @@ def strategy(tier):
 FIELDS = ("ts", "rng", "cnt", "dig", "c", "out", "new_dig", "new_rng")
 
 
-def compare_rows(res, key, a, b, clause_prefix="C01."):
-    """a: threaded row, b: compiled row."""
-    for f in FIELDS:
-        if not onp.array_equal(onp.asarray(a[f]), onp.asarray(b[f])):
-            if f == "ts" and onp.asarray(a[f]).tobytes() == onp.asarray(b[f]).tobytes():
-                continue
-            res.fail(clause_prefix + "step_" + f + "_differs", dict(key=list(key), threaded=a[f], compiled=b[f]))
-            return False
+def compare_rows(res, key, a, b, clause_prefix="C01.", recv_tol_inputs=()):
+    """a: threaded row, b: compiled row. recv_tol_inputs: inputs whose receive time the compiled runtime recomputes
+    (trainable delays: float32 ts_sent + d instead of the recorded, us-rounded arrival): compared within 2 us."""
     if sorted(a["ins"]) != sorted(b["ins"]):
         res.fail(clause_prefix + "input_names_differ", dict(key=list(key)))
         return False
     for name in a["ins"]:
         for f in ("seq", "ts_sent", "ts_recv", "a"):
             x, y = onp.asarray(a["ins"][name][f]), onp.asarray(b["ins"][name][f])
+            if f == "ts_recv" and name in recv_tol_inputs and x.shape == y.shape and onp.allclose(x, y, rtol=0, atol=2e-6):
+                continue
             if x.shape != y.shape or not onp.array_equal(x, y):
-                res.fail(clause_prefix + "window_" + f + "_differs", dict(key=list(key), input=name, threaded=x, compiled=y))
+                clause = clause_prefix + "window_" + f + "_differs"
+                tie = False
+                if name in recv_tol_inputs:
+                    # the threaded step consumed a message that arrived exactly at its start; the compiled runtime recomputes
+                    # the arrival as float32(ts_sent + d) and may find it (one ulp) later
+                    recv = onp.asarray(a["ins"][name]["ts_recv"], dtype=onp.float32)
+                    sq = onp.asarray(a["ins"][name]["seq"])
+                    tie = bool(((sq >= 0) & (recv == onp.float32(a["ts"]))).any())
+                if tie:
+                    clause += "@trainable_arrival_tie"
+                res.fail(clause, dict(key=list(key), input=name, threaded=x, compiled=y, step_ts=float(a["ts"]), trainable_arrival_tie=tie))
                 return False
+    for f in FIELDS:
+        if not onp.array_equal(onp.asarray(a[f]), onp.asarray(b[f])):
+            if f == "ts" and onp.asarray(a[f]).tobytes() == onp.asarray(b[f]).tobytes():
+                continue
+            res.fail(clause_prefix + "step_" + f + "_differs", dict(key=list(key), threaded=a[f], compiled=b[f]))
+            return False
     return True
 
 
@@ -81,7 +111,19 @@ def check(case) -> CaseResult:
         res.rejected = "skipped: an earlier case of this worker hung"
         return res
     try:
-        run = AsyncRun(spec)
+        trainable_inputs = {}
+        for c in spec["conns"]:
+            if c["delay"]["k"] == "train":
+                trainable_inputs.setdefault(c["dst"], set()).add(c.get("name") or c["src"])
+        node_cls = None
+        if trainable_inputs:
+            from rexverif.probes import ProbeNode
+
+            class node_cls(ProbeNode):  # receive times of trainable inputs are recomputed in float32 by the compiled runtime
+                digest_ts_recv = False
+
+            res.label("has_trainable")
+        run = AsyncRun(spec, node_cls=node_cls)
         recs = []
         for e, n in enumerate(spec["episodes"]):
             gs = run.start_state(e)
@@ -135,14 +177,14 @@ def check(case) -> CaseResult:
                     if (kind, e, seq) not in B:
                         res.fail("C01.scheduled_step_not_executed", dict(kind=kind, eps=e, seq=seq, slot=where[0][0], partition=where[0][1], mode=mode, prune=prune))
                         return res
-                for key, rows in B.items():
+                for key, rows in sorted(B.items(), key=lambda kv: (float(kv[1][0]["ts"]), kv[0])):  # earliest step first: root cause before its consequences
                     if len(rows) != 1:
                         res.fail("C01.compiled_step_executed_twice", dict(key=list(key), mode=mode, prune=prune))
                         return res
                     if key not in A:
                         res.fail("C01.compiled_step_unknown_to_threaded_run", dict(key=list(key), mode=mode, prune=prune))
                         return res
-                    if not compare_rows(res, key, A[key][0], rows[0]):
+                    if not compare_rows(res, key, A[key][0], rows[0], recv_tol_inputs=trainable_inputs.get(key[0], ())):
                         res.failures[-1][1].update(mode=mode, prune=prune) if isinstance(res.failures[-1][1], dict) else None
                         return res
                     n_cmp += 1
@@ -163,4 +205,23 @@ def check(case) -> CaseResult:
 
 
 def regressions():
-    return []
+    """A trainable zoh delay that makes a message arrive exactly at the consumer's step start on a skipped connection:
+    the record already encodes the skip decision (the message is consumed one step later), so the replay must agree.
+    (An earlier version of this check reported a difference here; it was the harness folding the bit pattern of -0.0
+    - the threaded runtime's default time stamps - into its digests. Corrected in probes._bits.)"""
+    det = lambda c: {"k": "det", "c": c}
+    spec = dict(
+        nodes=[dict(name="n0", rate=25, delay=det(0.0), exp_delay=None, advance=False, scheduling="FREQUENCY"),
+               dict(name="n1", rate=50, delay=det(0.0), exp_delay=None, advance=False, scheduling="FREQUENCY")],
+        conns=[dict(src="n0", dst="n1", blocking=False, skip=True, jitter="LATEST", window=2, delay={"k": "train", "min": 0.02, "max": 0.06, "d": 0.06, "interp": "zoh"}, exp_delay=None),
+               dict(src="n1", dst="n0", blocking=False, skip=True, jitter="LATEST", window=4, delay=det(0.01), exp_delay=None)],
+        supervisor="n1", seed=3, episodes=[5, 10], jit={"n0": False, "n1": False}, cls="tie", carry=False)
+    import json, os
+
+    out = [dict(spec=spec, combos=[["TOPOLOGICAL", True], ["MCS", True]])]
+    # known finding (see known_findings.json): structural tie on a trainable connection, float32 arrival rounds above the step start
+    path = os.path.join(os.path.dirname(__file__), "..", "regressions", "c01_trainable_tie.json")
+    if os.path.exists(path):
+        with open(path) as f:
+            out.append(json.load(f))
+    return out
